@@ -96,7 +96,8 @@ def extract_boundary_of_surface(mesh : SurfaceMesh) -> PolyLine :
     # re order edge indexes
     for e,(A,B) in enumerate(bound.edges):
         bound.edges[e] = keyify(map_v2v[A], map_v2v[B])
-    return bound, map_v2v
+    # map_v2v goes from the original mesh to the boundary; the documented return value is the map back to the original mesh
+    return bound, dict((iB, iM) for (iM, iB) in map_v2v.items())
 
 @allowed_mesh_types(VolumeMesh)
 def extract_boundary_of_volume(mesh : VolumeMesh) -> SurfaceMesh :
